@@ -48,6 +48,8 @@ def nontrivial(req, obs):
         return any(t[-1] != "l" for t in f[3:]) and any(t[-1] == "l" for t in f[3:])   # a dead and a live delivery
     if k == "ctxc":
         return len(f) == 5 and f[4].count(";") >= 1 and re.search(r"[cxht]", f[4]) is not None
+    if k == "stall":
+        return len(f) >= 7 and int(f[3]) > 0
     if k == "share":
         return len({t.split(":")[0] for t in f[4:]}) >= 2 and len({t.split(":")[1] for t in f[4:]}) < len(f[4:])  # a key through two wrappers
     if k == "sharec":
@@ -71,6 +73,7 @@ PROP = {
     "audit_module": "Audit.C14",
     "theorems": [
         "Wm.Dedup.one_per_window", "Wm.Dedup.one_per_window_from", "Wm.Dedup.remembered_at_least_window",
+        "Wm.Dedup.window_needs_section_clock_witness",
         "Wm.Dedup.keys_independent",
         "Wm.Dedup.accepted_again_after_expiry", "Wm.Dedup.accepted_again_after_expiry_from",
         "Wm.Dedup.sentinel_reaccepted_probe_forgotten", "Wm.Dedup.sentinel_reaccepted_probe_accepted",
@@ -115,6 +118,10 @@ PROP = {
             "1500..60000 other keys and last a sentinel key; the sentinel is polled until it is accepted again (= a clean-up whose tick is past "
             "the sentinel's, hence every probe's, expiry has run: theorem sentinel_reaccepted_probe_forgotten), then every probe is presented "
             "again and must be accepted again, whatever the number of keys that expired together - no wall-clock bound is asserted; "
+            "stall: the first presentation of a key is held up at the hook dedup.isduplicate.enter (right in front of the repository lock) for "
+            "0.6 / 1.1 / 2.5 windows (windows 30..200 ms, via repository / middleware / decorator), the key is presented again 0.65 / 0.8 "
+            "windows later and four more times; judged like a hist history with the held-up call stamped at the end of the hook action (the "
+            "clock reading of the critical section lies after the hook point), i.e. rule one_per_window counted from the accepting section; "
             "share / sharec: 1..6 wrappers (Middleware() and PublisherDecorator() called repeatedly) built from ONE Deduplicator value whose "
             "Repository and/or KeyFactory are left to the defaults (also explicit repository; nil *Deduplicator as the contrast where every "
             "wrapper is its own Deduplicator), keys presented through different wrappers and through d.IsDuplicate directly, sequentially and "
